@@ -400,3 +400,303 @@ Proof.
   - apply firstn_app_exact.
   - rewrite app_length. lia.
 Qed.
+
+(* ------------------------------------------------------------------ *)
+(* 3. convertbits                                                      *)
+(* ------------------------------------------------------------------ *)
+
+Lemma mod_mod_pow2 a m n : 0 <= n <= m -> (a mod 2 ^ m) mod 2 ^ n = a mod 2 ^ n.
+Proof.
+  intros H. apply Z.bits_inj'; intros i Hi.
+  rewrite !Z.testbit_mod_pow2 by lia.
+  destruct (Z.ltb_spec i n), (Z.ltb_spec i m); try lia; cbn; reflexivity.
+Qed.
+
+Lemma div_mod_pow2 a W k t : 0 <= k -> 0 <= t -> k + t <= W ->
+  ((a mod 2 ^ W) / 2 ^ k) mod 2 ^ t = (a / 2 ^ k) mod 2 ^ t.
+Proof.
+  intros Hk Ht HW. apply Z.bits_inj'; intros i Hi.
+  rewrite !Z.testbit_mod_pow2 by lia.
+  destruct (Z.ltb_spec i t); [|reflexivity]. cbn [andb].
+  rewrite !Z.div_pow2_bits by lia. rewrite Z.testbit_mod_pow2 by lia.
+  destruct (Z.ltb_spec (i + k) W); [reflexivity|lia].
+Qed.
+
+Lemma pow2_pos k : 0 <= k -> 0 < 2 ^ k.
+Proof. intros. apply Z.pow_pos_nonneg; lia. Qed.
+
+Lemma lor_shiftl_add a v k : 0 <= k -> 0 <= v < 2 ^ k -> Z.lor (Z.shiftl a k) v = a * 2 ^ k + v.
+Proof.
+  intros Hk Hv. rewrite <- Z.lxor_lor by (now apply land_shiftl_small).
+  rewrite <- Z.add_nocarry_lxor by (now apply land_shiftl_small).
+  now rewrite Z.shiftl_mul_pow2.
+Qed.
+
+Definition valw_from (w : Z) (l : list Z) (a : Z) : Z := fold_left (fun a x => a * 2 ^ w + x) l a.
+Definition valw (w : Z) (l : list Z) : Z := valw_from w l 0.
+Definition rangew (w : Z) (l : list Z) : Prop := Forall (fun v => 0 <= v < 2 ^ w) l.
+
+Lemma valw_from_app w l1 l2 a : valw_from w (l1 ++ l2) a = valw_from w l2 (valw_from w l1 a).
+Proof. unfold valw_from. apply fold_left_app. Qed.
+
+Lemma valw_snoc w l x : valw w (l ++ [x]) = valw w l * 2 ^ w + x.
+Proof. unfold valw. rewrite valw_from_app. reflexivity. Qed.
+
+Lemma valw_from_nonneg w l : forall a, 0 <= w -> rangew w l -> 0 <= a -> 0 <= valw_from w l a.
+Proof.
+  induction l as [|x l IH]; intros a Hw Hl Ha; cbn [valw_from fold_left]; [exact Ha|].
+  inversion Hl; subst. apply IH; try assumption.
+  pose proof (pow2_pos w Hw). nia.
+Qed.
+
+Lemma valw_from_split w l : forall a, 0 <= w ->
+  valw_from w l a = a * 2 ^ (w * Z.of_nat (length l)) + valw w l.
+Proof.
+  unfold valw.
+  induction l as [|x l IH]; intros a Hw.
+  - cbn [valw_from fold_left length]. change (Z.of_nat 0) with 0. rewrite Z.mul_0_r, Z.pow_0_r. lia.
+  - cbn [valw_from fold_left length]. fold (valw_from w l (a * 2 ^ w + x)).
+    fold (valw_from w l (0 * 2 ^ w + x)).
+    rewrite (IH (a * 2 ^ w + x)), (IH (0 * 2 ^ w + x)) by lia.
+    rewrite Nat2Z.inj_succ. replace (w * Z.succ (Z.of_nat (length l))) with (w + w * Z.of_nat (length l)) by lia.
+    rewrite Z.pow_add_r by lia. ring.
+Qed.
+
+Lemma valw_cons w x l : 0 <= w -> valw w (x :: l) = x * 2 ^ (w * Z.of_nat (length l)) + valw w l.
+Proof.
+  intros Hw. unfold valw at 1. cbn [valw_from fold_left]. fold (valw_from w l (0 * 2 ^ w + x)).
+  rewrite valw_from_split by lia. f_equal; lia.
+Qed.
+
+Lemma valw_bound w l : 0 <= w -> rangew w l -> 0 <= valw w l < 2 ^ (w * Z.of_nat (length l)).
+Proof.
+  intros Hw. induction 1 as [|x l Hx Hl IH].
+  - cbn [length]. change (Z.of_nat 0) with 0. rewrite Z.mul_0_r, Z.pow_0_r. cbn. lia.
+  - rewrite valw_cons by lia. cbn [length]. rewrite Nat2Z.inj_succ.
+    replace (w * Z.succ (Z.of_nat (length l))) with (w + w * Z.of_nat (length l)) by lia.
+    rewrite Z.pow_add_r by lia.
+    pose proof (pow2_pos (w * Z.of_nat (length l)) ltac:(lia)). nia.
+Qed.
+
+Lemma valw_inj w l : forall l', 0 <= w -> rangew w l -> rangew w l' -> length l = length l' ->
+  valw w l = valw w l' -> l = l'.
+Proof.
+  induction l as [|x l IH]; intros [|x' l'] Hw Hl Hl' Hlen Hv; try discriminate; [reflexivity|].
+  inversion Hl; subst. inversion Hl'; subst. cbn [length] in Hlen. injection Hlen as Hlen.
+  rewrite !valw_cons in Hv by lia. rewrite <- Hlen in Hv.
+  pose proof (valw_bound w l Hw H2). pose proof (valw_bound w l' Hw H4). rewrite <- Hlen in H0.
+  set (M := 2 ^ (w * Z.of_nat (length l))) in *.
+  assert (x = x') by nia. subst x'. f_equal. apply IH; try assumption. lia.
+Qed.
+
+Section ConvertBits.
+  Variables (from to : Z).
+  Hypothesis Hfrom : 0 < from.
+  Hypothesis Hto : 0 < to.
+  Let W := from + to - 1.
+  Hypothesis Hfuel : W < to * 16.
+
+  Lemma emit_digit N' b : 0 <= N' -> to <= b <= W ->
+    Z.land (Z.shiftr (N' mod 2 ^ W) (b - to)) (Z.ones to) = (N' / 2 ^ (b - to)) mod 2 ^ to.
+  Proof.
+    intros HN Hb. rewrite Z.land_ones, Z.shiftr_div_pow2 by lia.
+    apply div_mod_pow2; lia.
+  Qed.
+
+  Lemma cb_emit_spec N' : 0 <= N' ->
+    forall fuel b out, 0 <= b <= W -> b < to * Z.of_nat fuel -> rangew to out ->
+      valw to out = N' / 2 ^ b ->
+      exists out', cb_emit fuel (N' mod 2 ^ W) b to (Z.ones to) out = (b mod to, out') /\
+        rangew to out' /\ valw to out' = N' / 2 ^ (b mod to) /\
+        Z.of_nat (length out') = Z.of_nat (length out) + b / to.
+  Proof.
+    intros HN. induction fuel as [|f IH]; intros b out Hb Hfu Hr Hv.
+    - exfalso. change (Z.of_nat 0) with 0 in Hfu. lia.
+    - cbn [cb_emit]. destruct (Z.leb_spec to b) as [Hle|Hlt].
+      + rewrite emit_digit by lia.
+        assert (E1 : b mod to = (b - to) mod to).
+        { replace b with ((b - to) + 1 * to) at 1 by lia. apply Z_mod_plus_full. }
+        assert (E2 : b / to = (b - to) / to + 1).
+        { replace b with ((b - to) + 1 * to) at 1 by lia. apply Z_div_plus_full. lia. }
+        destruct (IH (b - to) (out ++ [(N' / 2 ^ (b - to)) mod 2 ^ to])) as [out' [H1 [H2 [H3 H4]]]].
+        * lia.
+        * rewrite Nat2Z.inj_succ in Hfu. lia.
+        * apply Forall_app. split; [exact Hr|]. constructor; [|constructor].
+          apply Z.mod_pos_bound. apply pow2_pos. lia.
+        * rewrite valw_snoc, Hv.
+          replace b with ((b - to) + to) at 1 by lia. rewrite Z.pow_add_r by lia.
+          rewrite <- Z.div_div by (try apply pow2_pos; lia).
+          pose proof (pow2_pos to ltac:(lia)).
+          pose proof (Z.div_mod (N' / 2 ^ (b - to)) (2 ^ to) ltac:(lia)). lia.
+        * exists out'. rewrite E1, E2. repeat split; try assumption.
+          rewrite H4, app_length. cbn [length]. lia.
+      + exists out. rewrite (Z.mod_small b to), (Z.div_small b to) by lia. repeat split; try assumption. lia.
+  Qed.
+
+  Lemma cb_loop_spec : forall data N bits out,
+    rangew from data -> 0 <= N -> 0 <= bits < to -> rangew to out -> valw to out = N / 2 ^ bits ->
+    exists bits' out',
+      let N' := valw_from from data N in
+      cb_loop data (N mod 2 ^ W) bits from to (Z.ones to) (Z.ones W) out = Some (N' mod 2 ^ W, bits', out') /\
+      0 <= N' /\ 0 <= bits' < to /\ rangew to out' /\ valw to out' = N' / 2 ^ bits' /\
+      to * Z.of_nat (length out') + bits' = to * Z.of_nat (length out) + bits + from * Z.of_nat (length data).
+  Proof.
+    induction data as [|v r IH]; intros N bits out Hd HN Hb Hr Hv.
+    - exists bits, out. cbn [cb_loop valw_from fold_left length]. repeat split; try assumption; lia.
+    - inversion Hd as [|? ? Hv0 Hr0]; subst.
+      cbn [cb_loop].
+      replace ((v <? 0) || negb (Z.shiftr v from =? 0)) with false.
+      2:{ symmetry. apply orb_false_iff. split; [apply Z.ltb_ge; lia|].
+          rewrite Z.shiftr_div_pow2, Z.div_small by lia. reflexivity. }
+      set (N' := N * 2 ^ from + v).
+      pose proof (pow2_pos from ltac:(lia)) as Hpf.
+      assert (HN' : 0 <= N') by (unfold N'; nia).
+      assert (Eacc : Z.land (Z.lor (Z.shiftl (N mod 2 ^ W) from) v) (Z.ones W) = N' mod 2 ^ W).
+      { rewrite lor_shiftl_add by lia. rewrite Z.land_ones by (unfold W; lia).
+        unfold N'. rewrite Z.add_mod, Z.mul_mod_idemp_l, <- Z.add_mod; try reflexivity;
+          apply Z.neq_sym, Z.lt_neq, pow2_pos; unfold W; lia. }
+      rewrite Eacc.
+      destruct (cb_emit_spec N' HN' 16 (bits + from) out) as [out1 [H1 [H2 [H3 H4]]]].
+      + unfold W. lia.
+      + change (Z.of_nat 16) with 16. fold W in Hfuel. unfold W in *. lia.
+      + exact Hr.
+      + rewrite Hv. rewrite Z.pow_add_r by lia. rewrite Z.mul_comm, <- Z.div_div by (try apply pow2_pos; lia).
+        f_equal. unfold N'. rewrite Z.div_add_l by lia. rewrite (Z.div_small v) by lia. lia.
+      + rewrite H1.
+        assert (Hb1 : 0 <= (bits + from) mod to < to) by (apply Z.mod_pos_bound; lia).
+        destruct (IH N' ((bits + from) mod to) out1 Hr0 HN' Hb1 H2 H3) as [bits' [out' IH']].
+        cbv zeta in IH'. destruct IH' as [I1 [I2 [I3 [I4 [I5 I6]]]]].
+        exists bits', out'. cbv zeta. cbn [valw_from fold_left length]. fold N'.
+        fold (valw_from from r N').
+        split; [exact I1|]. split; [exact I2|]. split; [exact I3|]. split; [exact I4|].
+        split; [exact I5|].
+        rewrite I6, Nat2Z.inj_succ, Z.mul_succ_r.
+        pose proof (Z.div_mod (bits + from) to ltac:(lia)) as Hdm.
+        rewrite H4, Z.mul_add_distr_l.
+        remember ((bits + from) / to) as q eqn:Eq. remember ((bits + from) mod to) as m eqn:Em.
+        remember (to * q) as tq eqn:Etq.
+        remember (to * Z.of_nat (length out)) as A eqn:EA.
+        remember (from * Z.of_nat (length r)) as B eqn:EB.
+        clear -Hdm. lia.
+  Qed.
+End ConvertBits.
+
+Lemma pad_digit N' W to b : 0 <= b < to -> b <= W ->
+  Z.land (Z.shiftl (N' mod 2 ^ W) (to - b)) (Z.ones to) = (N' mod 2 ^ b) * 2 ^ (to - b).
+Proof.
+  intros Hb HW. rewrite Z.land_ones, Z.shiftl_mul_pow2 by lia.
+  replace to with (b + (to - b)) at 2 by lia. rewrite Z.pow_add_r by lia.
+  rewrite Zmult_mod_distr_r. rewrite mod_mod_pow2 by lia. reflexivity.
+Qed.
+
+Lemma wf_bytes_rangew d : wf_bytes d <-> rangew 8 d.
+Proof. unfold wf_bytes, rangew. change (2 ^ 8) with 256. tauto. Qed.
+
+Lemma sym5_rangew d : sym5 d <-> rangew 5 d.
+Proof. unfold sym5, rangew. change (2 ^ 5) with 32. tauto. Qed.
+
+Lemma convertbits_8_5 d : wf_bytes d ->
+  exists d5 pad, convertbits d 8 5 true = Some d5 /\ sym5 d5 /\ 0 <= pad < 5 /\
+    5 * Z.of_nat (length d5) = 8 * Z.of_nat (length d) + pad /\ valw 5 d5 = valw 8 d * 2 ^ pad.
+Proof.
+  intros Hd. apply wf_bytes_rangew in Hd.
+  destruct (cb_loop_spec 8 5 ltac:(lia) ltac:(lia) ltac:(lia) d 0 0 [] Hd ltac:(lia) ltac:(lia))
+    as [bits' [out' H]]; [constructor|reflexivity|].
+  cbv zeta in H. fold (valw 8 d) in H. destruct H as [H1 [H2 [H3 [H4 [H5 H6]]]]].
+  set (N := valw 8 d) in *.
+  assert (E : cb_loop d 0 0 8 5 (Z.shiftl 1 5 - 1) (Z.shiftl 1 (8 + 5 - 1) - 1) [] =
+              Some (N mod 2 ^ (8 + 5 - 1), bits', out')) by exact H1.
+  unfold convertbits. rewrite E. clear E H1.
+  change (Z.shiftl 1 5 - 1) with (Z.ones 5).
+  change (Z.of_nat (length [])) with 0 in H6.
+  destruct (Z.eqb_spec bits' 0) as [E0|E0].
+  - exists out', 0. subst bits'. rewrite Z.pow_0_r, Z.div_1_r in H5. rewrite Z.pow_0_r.
+    repeat split; try lia. now apply sym5_rangew.
+  - exists (out' ++ [Z.land (Z.shiftl (N mod 2 ^ (8 + 5 - 1)) (5 - bits')) (Z.ones 5)]), (5 - bits').
+    rewrite pad_digit by lia.
+    pose proof (pow2_pos bits' ltac:(lia)) as Hp1. pose proof (pow2_pos (5 - bits') ltac:(lia)) as Hp2.
+    pose proof (Z.mod_pos_bound N (2 ^ bits') Hp1) as Hm.
+    assert (Hpp : 2 ^ bits' * 2 ^ (5 - bits') = 2 ^ 5) by (rewrite <- Z.pow_add_r by lia; f_equal; lia).
+    split; [reflexivity|]. split; [|split; [lia|split]].
+    + apply sym5_rangew. apply Forall_app. split; [exact H4|]. constructor; [|constructor]. nia.
+    + rewrite app_length, Nat2Z.inj_add. cbn [length]. lia.
+    + rewrite valw_snoc, H5. pose proof (Z.div_mod N (2 ^ bits') ltac:(lia)). rewrite <- Hpp. nia.
+Qed.
+
+Lemma convertbits_5_8 d5 n pad N : sym5 d5 -> 5 * Z.of_nat (length d5) = 8 * n + pad -> 0 <= pad < 5 ->
+  valw 5 d5 = N * 2 ^ pad ->
+  exists out, convertbits d5 5 8 false = Some out /\ wf_bytes out /\ Z.of_nat (length out) = n /\ valw 8 out = N.
+Proof.
+  intros Hd Hlen Hpad Hv. apply sym5_rangew in Hd.
+  destruct (cb_loop_spec 5 8 ltac:(lia) ltac:(lia) ltac:(lia) d5 0 0 [] Hd ltac:(lia) ltac:(lia))
+    as [bits' [out' H]]; [constructor|reflexivity|].
+  cbv zeta in H. fold (valw 5 d5) in H. destruct H as [H1 [H2 [H3 [H4 [H5 H6]]]]].
+  rewrite Hv in *.
+  assert (E : cb_loop d5 0 0 5 8 (Z.shiftl 1 8 - 1) (Z.shiftl 1 (5 + 8 - 1) - 1) [] =
+              Some ((N * 2 ^ pad) mod 2 ^ (5 + 8 - 1), bits', out')) by exact H1.
+  unfold convertbits. rewrite E. clear E H1.
+  change (Z.shiftl 1 8 - 1) with (Z.ones 8).
+  change (Z.of_nat (length [])) with 0 in H6.
+  assert (bits' = pad) by lia. subst bits'.
+  rewrite pad_digit by lia. rewrite Z.mod_mul by (apply Z.neq_sym, Z.lt_neq, pow2_pos; lia).
+  replace (5 <=? pad) with false by (symmetry; apply Z.leb_gt; lia).
+  cbn [orb negb Z.mul Z.eqb].
+  exists out'. split; [reflexivity|]. split; [now apply wf_bytes_rangew|]. split; [lia|].
+  rewrite H5. apply Z.div_mul. apply Z.neq_sym, Z.lt_neq, pow2_pos; lia.
+Qed.
+
+Theorem convertbits_roundtrip d : wf_bytes d ->
+  exists d5, convertbits d 8 5 true = Some d5 /\ sym5 d5 /\ convertbits d5 5 8 false = Some d /\
+             Z.of_nat (length d5) = (8 * Z.of_nat (length d) + 4) / 5.
+Proof.
+  intros Hd. destruct (convertbits_8_5 d Hd) as [d5 [pad [H1 [H2 [H3 [H4 H5]]]]]].
+  exists d5. split; [exact H1|]. split; [exact H2|]. split; [|lia].
+  destruct (convertbits_5_8 d5 (Z.of_nat (length d)) pad (valw 8 d) H2 H4 H3 H5) as [out [G1 [G2 [G3 G4]]]].
+  rewrite G1. f_equal. apply (valw_inj 8); try lia.
+  - now apply wf_bytes_rangew.
+  - now apply wf_bytes_rangew.
+Qed.
+
+(* ------------------------------------------------------------------ *)
+(* 6. segwit addresses                                                 *)
+(* ------------------------------------------------------------------ *)
+
+Lemma segwit_decode_encode hrp v prog d5 :
+  hrp_ok hrp -> (length hrp <= 4)%nat -> wf_bytes prog ->
+  (v = 0 /\ (length prog = 20%nat \/ length prog = 32%nat)) \/ (1 <= v <= 16 /\ (2 <= length prog <= 40)%nat) ->
+  convertbits prog 8 5 true = Some d5 -> sym5 d5 -> convertbits d5 5 8 false = Some prog ->
+  Z.of_nat (length d5) = (8 * Z.of_nat (length prog) + 4) / 5 ->
+  segwit_decode hrp (bech32_encode hrp (v :: d5) (if v =? 0 then BECH32 else BECH32M)) = Some (v, prog).
+Proof.
+  intros Hh Hl Hp Hv H1 H2 H3 H4.
+  unfold segwit_decode.
+  rewrite bech32_decode_encode.
+  - unfold list_eqb. rewrite bytes_eqb_refl. cbn [negb tl]. rewrite H3.
+    destruct Hv as [[-> Hn]|[Hv Hn]].
+    + replace ((Z.of_nat (length prog) <? 2) || (40 <? Z.of_nat (length prog))) with false
+        by (symmetry; apply orb_false_iff; split; apply Z.ltb_ge; lia).
+      cbn [Z.ltb Z.compare Z.eqb andb negb orb encoding_eqb].
+      replace (negb (Z.of_nat (length prog) =? 20) && negb (Z.of_nat (length prog) =? 32)) with false.
+      2:{ symmetry. destruct Hn as [-> | ->]; reflexivity. }
+      reflexivity.
+    + replace ((Z.of_nat (length prog) <? 2) || (40 <? Z.of_nat (length prog))) with false
+        by (symmetry; apply orb_false_iff; split; apply Z.ltb_ge; lia).
+      replace (16 <? v) with false by (symmetry; apply Z.ltb_ge; lia).
+      replace (v =? 0) with false by (symmetry; apply Z.eqb_neq; lia).
+      cbn [andb negb orb encoding_eqb]. reflexivity.
+  - exact Hh.
+  - constructor; [lia|exact H2].
+  - cbn [length]. destruct Hv as [[_ Hn]|[_ Hn]]; lia.
+Qed.
+
+Theorem segwit_roundtrip hrp v prog : hrp_ok hrp -> (length hrp <= 4)%nat -> wf_bytes prog ->
+  (v = 0 /\ (length prog = 20%nat \/ length prog = 32%nat)) \/ (1 <= v <= 16 /\ (2 <= length prog <= 40)%nat) ->
+  exists s, segwit_encode hrp v prog = Some s /\ segwit_decode hrp s = Some (v, prog).
+Proof.
+  intros Hh Hl Hp Hv.
+  destruct (convertbits_roundtrip prog Hp) as [d5 [H1 [H2 [H3 H4]]]].
+  pose proof (segwit_decode_encode hrp v prog d5 Hh Hl Hp Hv H1 H2 H3 H4) as Hdec.
+  exists (bech32_encode hrp (v :: d5) (if v =? 0 then BECH32 else BECH32M)).
+  split; [|exact Hdec].
+  unfold segwit_encode. rewrite H1. rewrite Hdec. reflexivity.
+Qed.
